@@ -70,6 +70,7 @@ type Exec struct {
 	ifaceUsed     map[string]*types.Interface
 	nameTypes     map[string]types.Type
 	kindUsed      bool
+	inSpec        int
 	sweepTags     []string
 	tidsUsed      map[int]bool
 	entryState    *State
@@ -667,13 +668,20 @@ func (x *Exec) finish(fr *Frame) {
 		for _, c := range con.Ensures {
 			env := x.contractEnv(fr, rs.st, fr.entry, rs.vals)
 			g := x.evalBool(env, c.Expr)
-			if c.KFKey != "" {
-				region := x.evalBool(env, c.KFWhen)
-				// outside region: claimed
-				x.oblige(fr, rs.st, "ensures", fmt.Sprintf("%d", c.Ord), c.Tags, x.tt.Implies(x.tt.Not(region), g), c.Text+"  [outside known-finding region "+c.KFKey+"]")
-				o := x.obligeNoAssume(fr, rs.st, "ensures-in-region", fmt.Sprintf("%d", c.Ord), c.Tags, x.tt.Implies(region, g), c.Text+"  [inside region "+c.KFKey+": "+c.KFText+"]")
-				if o != nil {
-					o.KFKey = c.KFKey
+			if len(c.KFs) > 0 {
+				var regions []*Term
+				var keys []string
+				for _, k := range c.KFs {
+					regions = append(regions, x.evalBool(env, k.When))
+					keys = append(keys, k.Key)
+				}
+				// outside all regions: claimed
+				x.oblige(fr, rs.st, "ensures", fmt.Sprintf("%d", c.Ord), c.Tags, x.tt.Implies(x.tt.Not(x.tt.Or(regions...)), g), c.Text+"  [outside known-finding regions "+strings.Join(keys, ",")+"]")
+				for i, k := range c.KFs {
+					o := x.obligeNoAssume(fr, rs.st, "ensures-in-region", fmt.Sprintf("%d:%s", c.Ord, k.Key), c.Tags, x.tt.Implies(regions[i], g), c.Text+"  [inside region "+k.Key+": "+k.Text+"]")
+					if o != nil {
+						o.KFKey = k.Key
+					}
 				}
 			} else {
 				x.oblige(fr, rs.st, "ensures", fmt.Sprintf("%d", c.Ord), c.Tags, g, c.Text)
